@@ -58,7 +58,7 @@ Definition int_window_h : N :=
 Definition after_call_check (fp numreg st : nat) : nat :=
   if Nat.leb st (fp + numreg) then 2 * st else st.
 
-(* the test as it was before fix 06a16cd, with > *)
+(* the test as it was before fix 1709e08, with > *)
 Definition after_call_check_gt (fp numreg st : nat) : nat :=
   if Nat.ltb st (fp + numreg) then 2 * st else st.
 
